@@ -229,6 +229,29 @@ def run_C08(ctx):
         pairs.append((a, b))
         cases += [a, b]
 
+    # a job at another ratio, reset(), then the polynomial stream again: the restarted stream must be the polynomial too
+    # (the first request after a reset is sized for the constructed ratio, not for the one in force before)
+    for i, (kind, rel) in enumerate([('fastout', 1.5), ('fastin', 1.5), ('fastout', 0.6), ('fastout', 2.0)]):
+        if ctx.quick and i >= 2:
+            break
+        r = rng.fork("polyrst%d" % i)
+        deg = i % 4 if i < 4 else r.below(4)
+        maxdeg = [7, 5, 3, 1][deg]
+        cfg = async_cfg(r, kind, tier, deg=deg, nch=1, maxrel=2.0)
+        cfg.update({'ratio': 0.8, 'chunk': 64, 'ty': ['f64', 'f32'][i % 2]})
+        coeffs = [r.uniform(-1, 1) * (0.05 ** j) for j in range(maxdeg + 1)]
+        def hist(name, c2, sig):
+            pib = "PIB mask=- inlen=next outlen=next sig=%s" % sig
+            lines = ["T ty=%s" % c2['ty'], new_line(c2), pib, "SETREL x=%s ramp=0" % f64hex(rel), pib, pib, "RESET", pib, pib, pib]
+            return Case(name, lines, {'cfg': c2, 'sig': sig, 'ops': [{'op': 'pib'}, {'op': 'setrel'}, {'op': 'pib'}, {'op': 'pib'}, {'op': 'reset'}] + [{'op': 'pib'}] * 3})
+        a = hist("polyrst_%02d_a" % i, dict(cfg), "poly:" + ":".join(f64hex(c) for c in coeffs))
+        cfgb = dict(cfg); cfgb['deg'] = 3
+        b = hist("polyrst_%02d_b" % i, cfgb, "ramp")
+        a.meta.update(coeffs=coeffs, twin=b, degree=deg)
+        b.meta['is_twin'] = True
+        pairs.append((a, b))
+        cases += [a, b]
+
     def judge(c):
         out = []
         if c.meta.get('fn') or c.meta.get('is_twin'):
@@ -545,6 +568,22 @@ def run_C13(ctx):
         for j in range(k):
             if r.chance(0.4):
                 a.append(valid); b.append(valid); ann.append('valid')
+            if nch > 1 and r.chance(0.35):
+                # a valid call with a mask that switches a channel off, then a malformed call *without* a mask in which exactly that
+                # channel is too short (a validation that looks at the mask of the previous call lets it through)
+                mk = [r.choice("01") for _ in range(nch)]
+                z = r.below(nch); mk[z] = '0'
+                if '1' not in mk:
+                    mk[(z + 1) % nch] = '1'
+                vm = "PIB mask=%s inlen=%s outlen=%s sig=%s" % ("".join(mk), ";".join('next' if q == '1' else 'abs:0' for q in mk),
+                                                             ";".join('max' if q == '1' else 'abs:0' for q in mk), sig)
+                a.append(vm); b.append(vm); ann.append('valid')
+                ins, outs = ['next'] * nch, ['max'] * nch
+                if r.chance(0.5):
+                    ins[z] = r.choice(['next-1', 'abs:0'])
+                else:
+                    outs[z] = r.choice(['next-1', 'abs:0'])
+                a.append("PIB mask=- inlen=%s outlen=%s sig=%s" % (";".join(ins), ";".join(outs), sig)); ann.append('bad')
             t = r.below(10)
             if t < 7:
                 a.append(malformed_op(r, nch)); ann.append('bad')
@@ -943,6 +982,36 @@ def directed_ramp_cases(rng, tag, linear_index_signal):
     return cases
 
 
+def double_setter_cases(rng, tag):
+    """a ramped change immediately replaced by a non-ramped change to the same value (and the reverse), with no call in between, to
+    a bound of the range; then four calls.  All four asynchronous types, absolute and relative setter."""
+    cases = []
+    j = 0
+    for k in ['fastout', 'sincout', 'fastin', 'sincin']:
+        for (first, x, rel) in [(1, 0.5, False), (1, 2.0, True), (0, 0.5, True), (1, 0.75, False)]:
+            r = rng.fork("%s_dbl_%d" % (tag, j))
+            cfg = async_cfg(r, k, 'quick', nch=1)
+            cfg.update({'ratio': 1.0, 'maxrel': 2.0, 'chunk': 1024 if k.startswith('fast') else 256})
+            if k.startswith('sinc'):
+                cfg.update({'slen': 16, 'L': 16, 'interp': 'default'}); cfg['factor'] = max(cfg['factor'], 2)
+            sig = "rand:%d" % r.below(9999)
+            tr = RatioTracker(cfg)
+            lines = ["T ty=%s" % cfg['ty'], new_line(cfg)]
+            ops = []
+            def pib():
+                ok, why = tr.envelope()
+                lines.append("PIB mask=- inlen=next outlen=next sig=%s" % sig)
+                ops.append({'op': 'pib', 'envelope': ok, 'why': why}); tr.processed()
+            pib(); pib()
+            for ramp in (first, 1 - first):
+                lines.append("%s x=%s ramp=%d" % ('SETREL' if rel else 'SETRATIO', f64hex(x), ramp))
+                tr.set_ratio(x, bool(ramp)); ops.append({'op': 'setrel' if rel else 'setratio', 'ratio': x, 'ramp': bool(ramp)})
+            pib(); pib(); pib(); pib()
+            cases.append(Case("%s_dbl_%02d_%s" % (tag, j, k), lines, {'cfg': cfg, 'ops': ops, 'sig': sig}))
+            j += 1
+    return cases
+
+
 def judge_C03(c):
     out = []
     tr = c.trace
@@ -971,6 +1040,8 @@ def run_C03(ctx):
     cases = corpus_cases() + valid_stream(ctx, 84, 1400, 'v')
     if getattr(ctx, 'golden', False):
         cases += directed_ramp_cases(ctx.rng, 'v', False)
+    else:
+        cases += double_setter_cases(ctx.rng, 'v')
     execute(ctx, cases, res, judge_C03, timeout=300)
     res['dist'].update(collections.Counter("%s:%s" % (c.meta['cfg']['kind'], a['op']) for c in cases for a in c.meta['ops']))
     res['dist']['calls_outside_envelope'] = sum(1 for c in cases for a in c.meta['ops'] if not a.get('envelope', True))
@@ -1049,6 +1120,7 @@ def run_C04(ctx):
     if getattr(ctx, 'golden', False):
         cases += directed_ramp_cases(ctx.rng, 'g', False)
     else:
+        cases += double_setter_cases(ctx.rng, 'g')
         # directed: the ratio is raised to the upper bound (getters read there), then lowered to the lower bound, non-ramped,
         # on all four asynchronous types: what input_frames_max() / output_frames_max() said at any time must still hold
         for j, k in enumerate(['fastout', 'sincout', 'fastin', 'sincin']):
@@ -1099,6 +1171,9 @@ def judge_C07(c):
         if s.res in FATAL:
             out.append(fail(c, i, "fatal outcome at constant ratio: %s" % s.res))
             break
+        if s.op == 'RESET' and s.res == 'unit':
+            nin = nout = 0          # a new stream starts here: the accounting must hold for it as for a fresh instance
+            continue
         if s.res == 'counts':
             nin += int(s.fields[0])
             nout += int(s.fields[1])
@@ -1142,6 +1217,8 @@ def run_C07(ctx):
         k = gens.ALL[i % 7]
         nops = (20 + r.below(40)) if ctx.quick else (60 + r.below(400))
         ops = ['pib', 'pib', 'pib', 'pib', 'pib', 'setchunk'] if k in ('sincin', 'sincout') else ['pib']
+        if i % 3 == 2:
+            ops = ops * 3 + ['reset']      # a third of the streams are interrupted by reset() now and then
         cfg = None
         if k in gens.ASYNC:
             cfg = async_cfg(r, k, tier)
@@ -1177,6 +1254,23 @@ def run_C07(ctx):
             lines.append("SETCHUNK n=%d" % (b if j % 2 == 0 else a)); ops.append({'op': 'setchunk'})
             lines.append("PIB mask=- inlen=next outlen=next sig=%s" % sig); ops.append({'op': 'pib'})
         cases.append(Case("acc_alt_%02d_%s" % (i, k), lines, {'cfg': cfg, 'ops': ops, 'sig': sig}))
+    # directed: reset() after 1..7 calls on the synchronous types whose requirement varies from call to call (chunk not a multiple
+    # of the block), then a long stream
+    for i, (k, rin, rout, chunk, sub) in enumerate([('fftout', 44100, 48000, 1024, 2), ('fftout', 44100, 48000, 240, 1), ('fftin', 48000, 44100, 700, 2),
+                                                    ('fftout', 3, 2, 100, 3), ('fftin', 2, 3, 100, 3), ('fftout', 48000, 44100, 300, 1)]):
+        if ctx.quick and i >= 3:
+            break
+        cfg = {'kind': k, 'rin': rin, 'rout': rout, 'chunk': chunk, 'sub': sub, 'nch': 1, 'ty': ['f64', 'f32'][i % 2]}
+        sig = "rand:%d" % (77 + i)
+        pib = "PIB mask=- inlen=next outlen=next sig=%s" % sig
+        lines = ["T ty=%s" % cfg['ty'], new_line(cfg)]
+        ops = []
+        for before in (2, 4, 7, 1, 3):
+            lines += [pib] * before + ["RESET"]
+            ops += [{'op': 'pib'}] * before + [{'op': 'reset'}]
+        lines += [pib] * 12
+        ops += [{'op': 'pib'}] * 12
+        cases.append(Case("acc_rst_%02d_%s" % (i, k), lines, {'cfg': cfg, 'ops': ops, 'sig': sig, 'no_model': max(rin, rout) > 1000 and chunk > 500}))
     # directed: long runs of calls with every channel masked out (the bookkeeping must go on exactly as for active channels)
     for i, k in enumerate(['sincout', 'fastout', 'sincin', 'fastin', 'fftout', 'fftin']):
         if ctx.quick and i >= 3:
@@ -1400,6 +1494,20 @@ def run_C14(ctx):
         for _ in range(int((n0 + 900) / max(1, cfg['chunk'] if k == 'fastin' else cfg['chunk'] / 1.5)) + 6):
             lines.append("PIB mask=- inlen=next outlen=max sig=imp:%d" % n0)
         cases.append(Case("imp_rst_%d_%s" % (j, k), lines, {'cfg': cfg, 'n0': n0, 'ratio': 1.5}))
+    # strong decimation (ratio below 1/4) with the same ratio re-applied, non-ramped, before every chunk: the stream must not
+    # creep.  A smooth pulse is used (a one-sample impulse can fall between the instants of a decimating polynomial resampler).
+    for j, (k, ratio0, chunk) in enumerate([('fastin', 1 / 6.0, 64), ('fastin', 0.2, 50), ('fastout', 1 / 6.0, 16), ('fastin', 0.11, 100)]):
+        if ctx.quick and j >= 3:
+            break
+        r = rng.fork("c14_rep_%d" % j)
+        cfg = async_cfg(r, k, tier, nch=1, ty='f64')
+        cfg.update({'ratio': ratio0, 'maxrel': 2.0, 'chunk': chunk, 'deg': r.choice([1, 2, 3])})
+        n0 = 3000 + r.below(500)
+        lines = ["T ty=f64", new_line(cfg)]
+        for _ in range(int((n0 + 1500) / max(1, chunk if k == 'fastin' else chunk / ratio0)) + 6):
+            lines.append("SETREL x=%s ramp=0" % f64hex(1.0))
+            lines.append("PIB mask=- inlen=next outlen=max sig=bump:%d:%d" % (n0, 24))
+        cases.append(Case("imp_rep_%d_%s" % (j, k), lines, {'cfg': cfg, 'n0': n0, 'ratio': ratio0, 'refresh': True}))
     if not ctx.quick:
         # very large FFT blocks (implementation only: the delay must still be fft_size_out / 2)
         for j, (k, rin, rout, chunk) in enumerate([('fftinout', 44100, 48000, 16384), ('fftout', 96000, 44100, 8192), ('fftin', 48000, 48010, 9000),
@@ -1426,6 +1534,8 @@ def run_C14(ctx):
             if s.res == 'unit' and not ys:
                 delay = s.g[4]          # output_delay() after a ratio change that precedes the stream
                 continue
+            if s.res == 'unit' and c.meta.get('refresh'):
+                continue                # the ratio in force is set again to the same value between two calls
             if s.res != 'counts':
                 return [fail(c, -1, "call failed: %s %s" % (s.res, s.fields))]
             ys.extend(expand_samples(s.outs[0], 'f64')[:int(s.fields[1])])
@@ -1666,6 +1776,24 @@ def run_C10(ctx):
             cb = Case("rst_intq_%02d_%s_b" % (i, k), head + suffix, {'cfg': cfg, 'is_twin': True})
             ca.meta['twin'] = cb
             cases += [ca, cb]
+
+    # directed: new_with_interpolator with a hand-written implementation of the public SincInterpolator trait whose number of taps
+    # is odd or not a multiple of 8 (the bundled kernels never are): implementation twins only, the model has no such kernel
+    for i, (k, L) in enumerate([('sincin', 9), ('sincout', 15), ('sincin', 33), ('sincout', 7), ('sincin', 12), ('sincout', 21)]):
+        if ctx.quick and i >= 4:
+            break
+        r = rng.fork("c10_plain_%d" % i)
+        cfg = async_cfg(r, k, 'quick')
+        cfg.update({'ratio': r.choice([48000 / 44100, 0.75, 1.5]), 'maxrel': r.choice([1.0, 2.0]), 'chunk': r.choice([32, 100]), 'nch': r.choice([1, 2]),
+                    'slen': L, 'L': L, 'interp': 'plain', 'factor': r.choice([4, 16])})
+        sig = "rand:%d" % r.below(9999)
+        call = "PIB mask=- inlen=%s outlen=%s sig=%s" % (";".join(['next'] * cfg['nch']), ";".join(['next'] * cfg['nch']), sig)
+        head = ["T ty=%s" % cfg['ty'], new_line(cfg)]
+        suffix = [call, call, call]
+        ca = Case("rst_plain_%02d_%s_a" % (i, k), head + [call] * (i % 3) + ["RESET"] + suffix, {'cfg': cfg, 'nsuffix': len(suffix), 'kind': k, 'no_model': True})
+        cb = Case("rst_plain_%02d_%s_b" % (i, k), head + suffix, {'cfg': cfg, 'is_twin': True, 'no_model': True})
+        ca.meta['twin'] = cb
+        cases += [ca, cb]
 
     def judge(c):
         if c.meta.get('is_twin'):
@@ -2096,7 +2224,10 @@ def run_C18(ctx):
                 cfg['interp'] = 'default'
         else:
             cfg = fft_cfg(r, k, 'quick')
-        h = gens.valid_history(r.fork('h'), k, 'quick', "th_%04d_%s" % (i, k), cfg=cfg, allow_out_of_envelope=False)
+        # a quarter of the groups stream values in the subnormal range of the sample type (a floating-point mode left behind by
+        # another instance on the thread - flush-to-zero, a rounding mode - shows there and nowhere else)
+        h = gens.valid_history(r.fork('h'), k, 'quick', "th_%04d_%s" % (i, k), cfg=cfg, allow_out_of_envelope=False,
+                               sig=("tiny:%d" % r.below(99999)) if i % 4 == 1 else None)
         warm = warm_variants(r.fork('w'), cfg)
         cases += group("th_%04d_%s" % (i, k), h.spec, warm, cfg, r.choice([2, 3, 4, 8, 16]), r.choice(['odd', 'even']))
 
@@ -2251,7 +2382,8 @@ def run_C05(ctx):
                         nsz = sched[(j // 2) % len(sched)]
                         lines.append("SETCHUNK n=%d" % nsz)
                         per_call_in = nsz if kind.endswith('in') else max(1.0, nsz / c['ratio'])
-                    lines.append("PIB mask=- inlen=%s outlen=%s sig=%s" % (";".join(['next'] * c['nch']), ";".join(['next'] * c['nch']), sig))
+                    il = 'max' if (kind.endswith('out') and len(members) % 2 == 1) else 'next'
+                    lines.append("PIB mask=- inlen=%s outlen=%s sig=%s" % (";".join([il] * c['nch']), ";".join(['next'] * c['nch']), sig))
                     fed += per_call_in
                     j += 1
                 members.append((c, lines))
@@ -2279,12 +2411,15 @@ def run_C05(ctx):
                     out.append({'kind': 'fftout', 'rin': rin, 'rout': rout, 'chunk': w * sub + r.below(sub), 'sub': sub, 'nch': nch, 'ty': ty})
                 out.append({'kind': 'fftinout', 'rin': rin, 'rout': rout, 'chunk': (m - 1) * mi + 1 + r.below(mi), 'nch': nch, 'ty': ty})
                 return out
-            for c in cfgs():
+            for ci, c in enumerate(cfgs()):
                 per_call_in = c['chunk'] if c['kind'] == 'fftin' else (m * mi if c['kind'] == 'fftinout' else max(1.0, c['chunk'] * rin / rout))
                 lines = ["T ty=%s" % c['ty'], new_line(c)]
                 fed, j = 0, 0
+                # one member of each kind is handed the whole buffer of input_buffer_allocate (or a longer slice) on every call:
+                # more input than required is allowed and must change nothing
+                il = ['next', 'max', 'next', 'max', 'max+300'][ci]
                 while fed < total_in and j < 3000:
-                    lines.append("PIB mask=- inlen=%s outlen=%s sig=%s" % (";".join(['next'] * nch), ";".join(['next'] * nch), sig))
+                    lines.append("PIB mask=- inlen=%s outlen=%s sig=%s" % (";".join([il] * nch), ";".join(['next'] * nch), sig))
                     fed += per_call_in
                     j += 1
                 members.append((c, lines))
@@ -2481,6 +2616,7 @@ def run_C01(ctx):
     for i in range(n):
         r = rng.fork("c01_%d" % i)
         model = (i % 5 == 0)
+        inlen = 'next'
         if i % 4 != 3:
             cfg = sinc_probe_cfg(r, ctx.quick, model)
             explicit = (not model) and i % 2 == 1
@@ -2511,6 +2647,12 @@ def run_C01(ctx):
                 cfg['fcut'] = f32round(cfg['fcut'] * f32round(cfg['ratio']))
         else:
             cfg = fft_probe_cfg(r, ctx.quick, model)
+            # every other FFT probe hands over the whole buffer of input_buffer_allocate on every call (longer input than
+            # required is allowed); half of those are FftFixedOut with two sub-chunks (the requirement varies from call to call)
+            if (i // 4) % 2 == 0:
+                inlen = 'max'
+                if (i // 4) % 4 == 0:
+                    cfg['kind'] = 'fftout'; cfg['sub'] = 2
             fin, fout = fft_sizes(cfg)
             cut = cutoff_py(fout, 'BlackmanHarris2') * fout / fin if fin > fout else cutoff_py(fin, 'BlackmanHarris2')
             pedge = cut - (1 - cutoff_py(fin, 'BlackmanHarris2'))
@@ -2526,7 +2668,7 @@ def run_C01(ctx):
         if fam == 'FFT' and ntone > 1:
             tones[0] = (min(tones[0][0], 1.0 / (4.2 * span)), tones[0][1], 1.0)
         n_in = int(3 * span + (700 if model else 2500) / min(1.0, ratio) ** 0.5)
-        c = spectral.probe_case("tone_%04d_%s" % (i, cfg['kind']), cfg, tones, n_in, model and ctx.with_model)
+        c = spectral.probe_case("tone_%04d_%s" % (i, cfg['kind']), cfg, tones, n_in, model and ctx.with_model, inlen=inlen)
         c.meta.update(fam=fam, pedge=pedge, mode='pass', fft_in=(span // 2 if fam == 'FFT' else 0))
         cases.append(spectral.stamp(c))
 
